@@ -39,4 +39,14 @@ def D2():
     return None
 
 
-FINDINGS = {'D8': D8, 'D10': D10, 'D2': D2}
+def D11():
+    from py_stringmatching import WhitespaceTokenizer
+    from py_stringsimjoin.filter.size_filter import SizeFilter
+    f = SizeFilter(WhitespaceTokenizer(return_set=True), 'COSINE', 0.005)
+    if f.filter_pair('a', '') is False:
+        return ("SizeFilter(COSINE, 0.005).filter_pair('a', '') keeps a pair whose best attainable similarity is 0 "
+                "(while filter_pair('', 'a') drops it)")
+    return None
+
+
+FINDINGS = {'D8': D8, 'D10': D10, 'D2': D2, 'D11': D11}
